@@ -38,6 +38,9 @@ type C08Case struct {
 	CacheN   int           `json:"cache_n"`
 	Conns    []C08Conn     `json:"conns"`
 	Reflects []C08Reflect  `json:"reflects"`
+	// Rebuild: the key list is rebuilt from the same configuration (a reload, a restart, the same key on a second
+	// listener) before the recordings are reflected: recognising one's own salts depends on the key's secret alone
+	Rebuild bool `json:"rebuild,omitempty"`
 }
 
 func genC08(maxConns int) func(t *rapid.T) C08Case {
@@ -54,6 +57,7 @@ func genC08(maxConns int) func(t *rapid.T) C08Case {
 			r.Arg = rapid.IntRange(50, 120).Draw(t, "arg")
 			c.Reflects = append(c.Reflects, r)
 		}
+		c.Rebuild = rapid.IntRange(0, 2).Draw(t, "rebuild") == 0
 		return c
 	}
 }
@@ -98,6 +102,11 @@ func runC08(c C08Case, info *kit.Info) *kit.Finding {
 			return kit.Violation("salt:reused", "connections %d and %d received the same server salt %x", j, i, s)
 		}
 		salts[s] = i
+	}
+	if c.Rebuild {
+		h = service.NewStreamHandler(service.NewShadowsocksStreamAuthenticator(kit.NewCipherList(c.Keys), cache, nil, nil), time.Second)
+		h.SetTargetDialer(dialer)
+		info.Class("key-list-rebuilt-before-reflection")
 	}
 	for ri, r := range c.Reflects {
 		info.Steps++
